@@ -580,26 +580,21 @@ func (l *Lexer) SkipStreamEOL() error {
 // ReadBytes reads exactly n bytes from the underlying reader.
 // Used for reading binary stream data where tokenization is not appropriate.
 func (l *Lexer) ReadBytes(n int) ([]byte, error) {
-	data := make([]byte, n)
-	totalRead := 0
-
-	for totalRead < n {
-		bytesRead, err := l.reader.Read(data[totalRead:])
-		totalRead += bytesRead
-		l.pos += int64(bytesRead)
-
-		if err == io.EOF && totalRead < n {
-			return data[:totalRead], fmt.Errorf("unexpected EOF: expected %d bytes, got %d", n, totalRead)
-		}
-		if err != nil && err != io.EOF {
-			return data[:totalRead], err
-		}
-		if err == io.EOF {
-			break
-		}
+	if n < 0 {
+		return nil, fmt.Errorf("invalid byte count: %d", n)
 	}
-
-	return data, nil
+	// n comes from the file (/Length) and may be far larger than what is left of it: let the
+	// buffer grow with the bytes that are really there instead of allocating n up front.
+	var buf bytes.Buffer
+	read, err := io.CopyN(&buf, l.reader, int64(n))
+	l.pos += read
+	if err == io.EOF {
+		return buf.Bytes(), fmt.Errorf("unexpected EOF: expected %d bytes, got %d", n, read)
+	}
+	if err != nil {
+		return buf.Bytes(), err
+	}
+	return buf.Bytes(), nil
 }
 
 // SkipBytes discards exactly n bytes from the underlying reader.
